@@ -194,7 +194,7 @@ theorem while_refines (nb : Nat) (n : Nat) : ∀ (fuel : Nat) (s : State F),
     obtain ⟨f, rfl⟩ : ∃ f, fuel = f + 1 := ⟨fuel - 1, by omega⟩
     have hex : exec (f + 1) whileS s = s := by
       unfold whileS
-      exact exec_while_exit f _ _ s (by simp [BE.ok, IE.ok])
+      exact exec_while_done f _ _ s (by simp [BE.ok, IE.ok])
         (by rw [cmp_start_end]; simp; omega)
     rw [hex]
     refine ⟨hrun, ?_, ⟨rfl, rfl, rfl, rfl, rfl, rfl, fun _ _ => rfl⟩⟩
@@ -217,7 +217,7 @@ theorem while_refines (nb : Nat) (n : Nat) : ∀ (fuel : Nat) (s : State F),
         have hbody := whileBody_right f s nb hrun hs hl hm0 hm1 hb
         have hstep : exec (f + 1) whileS s = exec f whileS (exec f whileBody s) := by
           unfold whileS
-          exact exec_while_step f _ _ s hcok hcev (by rw [hbody]; exact hrun)
+          exact exec_while_step_run f _ _ s hcok hcev (by rw [hbody]; exact hrun)
         rw [hstep, hbody]
         generalize hs1 : ({ s with ienv := (setS (setS s.ienv "start" (s.ienv "mid" + 1)) "mid"
                  ((s.ienv "end" + (s.ienv "mid" + 1)) / 2)) } : State F) = s1
@@ -240,7 +240,7 @@ theorem while_refines (nb : Nat) (n : Nat) : ∀ (fuel : Nat) (s : State F),
           have hbody := whileBody_break f s nb hrun hs hl hm0 hm1 hb hc
           have hstep : exec (f + 1) whileS s = { exec f whileBody s with ctl := .run } := by
             unfold whileS
-            exact exec_while_brk f _ _ s hcok hcev (by rw [hbody])
+            exact exec_while_break f _ _ s hcok hcev (by rw [hbody])
           rw [hstep, hbody]
           refine ⟨rfl, ?_, ⟨rfl, rfl, rfl, rfl, rfl, rfl, fun _ _ => rfl⟩⟩
           simp
@@ -248,7 +248,7 @@ theorem while_refines (nb : Nat) (n : Nat) : ∀ (fuel : Nat) (s : State F),
           have hbody := whileBody_left f s nb hrun hs hl hm0 hm1 hb hc
           have hstep : exec (f + 1) whileS s = exec f whileS (exec f whileBody s) := by
             unfold whileS
-            exact exec_while_step f _ _ s hcok hcev (by rw [hbody]; exact hrun)
+            exact exec_while_step_run f _ _ s hcok hcev (by rw [hbody]; exact hrun)
           rw [hstep, hbody]
           generalize hs1 : ({ s with ienv := (setS (setS s.ienv "end" (s.ienv "mid" - 1)) "mid"
                  ((s.ienv "mid" - 1 + s.ienv "start") / 2)) } : State F) = s1
@@ -267,7 +267,7 @@ theorem while_refines (nb : Nat) (n : Nat) : ∀ (fuel : Nat) (s : State F),
           rw [r2, below_congr hfr.fa hfr.fenv, e1, e2]; rfl
     · have hex : exec (f + 1) whileS s = s := by
         unfold whileS
-        exact exec_while_exit f _ _ s hcok
+        exact exec_while_done f _ _ s hcok
           (by rw [cmp_start_end]; simpa using hle)
       rw [hex, Bin.loop.eq_def]
       simp only [hle, if_false]
